@@ -38,6 +38,10 @@ def load_program(out_dir, repo=None):
     importlib.invalidate_caches()
 
 
+class NonTermination(BaseException):
+    """raised by the counting reader; a BaseException so that no handler in generated code swallows it"""
+
+
 class Program:
     def __init__(self, spec_dir, out_dir, repo=None):
         self.spec = X.load_tree(spec_dir)
@@ -355,19 +359,26 @@ class Program:
             want_exc = None
         except C.NegativeLength:
             want, st, want_exc = None, None, "ValueError"
-        r = self.EoReader(bytes(data))
+        except C.Diverges:
+            want, st, want_exc = None, None, "diverges"
+        r = self.counting_reader(bytes(data))
         r.chunked_reading_mode = chunked or self.ctx[name]
         mode0 = r.chunked_reading_mode
         try:
             got = self.cls(name).deserialize(r)
+        except NonTermination as e:
+            return {"kind": "does-not-terminate", "property": "C03", "detail": str(e),
+                    "reading_rules_terminate": want_exc != "diverges"}
         except ValueError as e:
             if r.chunked_reading_mode != mode0:
                 return {"kind": "mode-not-restored-on-raise", "property": "C15"}
-            if want_exc == "ValueError":
+            if want_exc in ("ValueError", "diverges"):
                 return None
             return {"kind": "unexpected-ValueError", "property": "C03", "exception": repr(e)}
         except Exception as e:
             return {"kind": "exception-escapes", "property": "C03", "exception": repr(e)}
+        if want_exc == "diverges":
+            return None                 # the reading rules prescribe nothing here; terminating is all C03 asks
         if want_exc is not None:
             return {"kind": "missing-ValueError", "property": "C03"}
         if r.chunked_reading_mode != mode0:
@@ -378,6 +389,25 @@ class Program:
         if r.position != st.pos:
             return {"kind": "position-mismatch", "property": "C03", "got": r.position, "want": st.pos}
         return None
+
+    def counting_reader(self, data):
+        """an EoReader that gives up (NonTermination) once `remaining` has been evaluated far more often
+        than any terminating deserializer can on this input: every loop head evaluates it, and every
+        terminating iteration consumes a byte or advances the chunk start"""
+        base = self.EoReader
+        cap = 2000 + 200 * len(data)
+
+        class CountingReader(base):
+            evaluations = 0
+
+            @property
+            def remaining(self):
+                CountingReader.evaluations += 1
+                if CountingReader.evaluations > cap:
+                    raise NonTermination(f"reader.remaining evaluated more than {cap} times on {len(data)} bytes; "
+                                         f"position {self.position} no longer changes")
+                return base.remaining.fget(self)
+        return CountingReader(data)
 
     def check_roundtrip(self, name, obj):
         """C01 on one object (caller guarantees wire-unambiguous spec and round-trip domain)"""
